@@ -866,9 +866,12 @@ func (g *gen) runTimed(p *prepared) (cs c.Case, ok bool) {
 const b64alpha = "ABCDEFGHIJKLMNOPQRSTUVWXYZabcdefghijklmnopqrstuvwxyz0123456789-_"
 
 func (g *gen) randB64(n int) string {
+	// one draw from the main stream whatever n is (n follows the length of a sealed code, which
+	// varies from run to run): the rest of the stream stays a function of the seed
+	sub := g.r.Sub(n)
 	b := make([]byte, n)
 	for i := range b {
-		b[i] = b64alpha[g.r.Intn(64)]
+		b[i] = b64alpha[sub.Intn(64)]
 	}
 	return string(b)
 }
